@@ -16,13 +16,58 @@ def esc(s):
     return s.replace('&', '&amp;').replace('<', '&lt;').replace('>', '&gt;')
 
 
+WORDS = ['VLAN', 'with', 'the', 'same', 'name', 'exists', 'statement', 'not', 'found', 'lock', 'held', 'ignored', 'x', 'Object']
+SEPS = [' ', ' ', ' ', '  ', '\t', '\n', ' \n  ', '   ']
+
+
+def syn_msg(rng):
+    """2-5 words joined by varying white space (single / double blanks, TAB, line feed), optionally padded."""
+    ws = [rng.choice(WORDS) for _ in range(rng.randint(2, 5))]
+    out = ws[0]
+    for w in ws[1:]:
+        out += rng.choice(SEPS) + w
+    if rng.random() < 0.2:
+        out = rng.choice([' ', '\n', '  ']) + out + rng.choice([' ', '\n', ''])
+    return out
+
+
+def derived_pat(rng, msg):
+    """A pattern cut out of a message: exact / prefix* / *suffix / *infix*, with the case and sometimes the white space altered
+    (near misses: a pattern that differs from the text only in the amount or kind of inner white space must NOT match)."""
+    words = msg.split()
+    sep = lambda: rng.choice([None, None, ' ', '  ', '\t'])
+    core = msg.strip()
+    r = rng.random()
+    if r < 0.35 and len(words) > 1:
+        # re-join with other separators -> near miss (or identical when the original used single blanks)
+        j = rng.choice([' ', '  ', '\t', '\n'])
+        core = j.join(words)
+    k = rng.random()
+    if k < 0.25:
+        pat = core
+    elif k < 0.5:
+        cut = rng.randint(1, max(1, len(core) - 1))
+        pat = core[:cut] + '*'
+    elif k < 0.75:
+        cut = rng.randint(0, max(0, len(core) - 1))
+        pat = '*' + core[cut:]
+    else:
+        a = rng.randint(0, max(0, len(core) - 1))
+        b = rng.randint(a, len(core))
+        pat = '*' + core[a:b] + '*'
+    # case changes on ASCII letters only (the model's lower() is ASCII; cased non-ASCII letters are outside the generators)
+    up = ''.join(c.upper() if 'a' <= c <= 'z' else c for c in pat)
+    lo = ''.join(c.lower() if 'A' <= c <= 'Z' else c for c in pat)
+    return rng.choice([pat, up, lo])
+
+
 def gen_error(rng):
     fields = []
     for f in FIELDS:
         if f == 'error-severity':
             v = rng.choice(SEVS)
         elif f == 'error-message':
-            v = rng.choice(MSGS)
+            v = rng.choice(MSGS) if rng.random() < 0.5 else syn_msg(rng)
         elif f == 'error-info':
             v = rng.choice([None, None, '<bad-element>x</bad-element>', '<a><b>1</b></a>'])
         else:
@@ -38,9 +83,18 @@ def gen_case(rng):
     errs = [gen_error(rng) for _ in range(n)]
     r = rng.random()
     pats = [] if r < 0.45 else rng.sample(PATS, rng.randint(1, 3))
+    msgs = [dict(e).get('error-message') for e in errs if dict(e).get('error-message')]
+    if msgs and r >= 0.45 and rng.random() < 0.6:
+        pats = pats[:rng.randint(0, 1)] + [derived_pat(rng, rng.choice(msgs)) for _ in range(rng.randint(1, 2))]
     profile = 'nexus' if rng.random() < 0.15 else 'default'
-    return {'errs': errs, 'ok_too': rng.random() < 0.07, 'mode': rng.choice([0, 1, 2]), 'pats': pats, 'profile': profile,
+    case = {'errs': errs, 'ok_too': rng.random() < 0.07, 'mode': rng.choice([0, 1, 2]), 'pats': pats, 'profile': profile,
             'nested': rng.random() < 0.05}
+    if rng.random() < 0.06:
+        # the mode and the exempt list travel from the connect parameters (errors_params) through the public connect_uds entry point
+        case['via'] = 'connect'
+        if case['mode'] == 2 and rng.random() < 0.5:
+            case['mode_key'] = 'absent'        # no raise_mode given: the documented default is ALL
+    return case
 
 
 def reply_xml(case, mid):
@@ -84,8 +138,9 @@ class C06(Check):
     PROPS_MODULE = 'NcVerif.Props.C06'
     RULE = ('replies with 0-5 rpc-errors over all severity combinations (error / warning / absent / other case / padded / unknown), each '
             'optional field present or absent in shuffled order, nested error-info, optional <ok/>, errors nested under <data>; x 3 raise '
-            'modes x exempt pattern sets (exact / prefix* / *suffix / *infix* / "*" / "**", user list and the nexus built-in list) run '
-            'through the REAL RPC._request / RPCReplyListener / RPCReply.parse on a stub session. Non-trivial = at least one rpc-error; '
+            'modes x exempt pattern sets (exact / prefix* / *suffix / *infix* / "*" / "**", user list and the nexus built-in list; messages '
+            'of several words joined by single / double blanks, TAB, line feed, and patterns cut out of them with the case or the white space altered) run '
+            'through the REAL RPC._request / RPCReplyListener / RPCReply.parse on a stub session, and (6 % of the cases) through the public connect_uds entry point with errors_params against a Unix-socket server. Non-trivial = at least one rpc-error; '
             'distinct by case.')
     TRUST = ['str.lower() is modelled for ASCII letters only; generators use ASCII letters plus uncased Unicode',
              'lxml parsing of the reply (error fields are taken from the parsed tree: environment)']
@@ -110,8 +165,38 @@ class C06(Check):
     def run_impl(self, case):
         from impl.rpcstub import make_manager
         from ncclient.operations import RPCError
-        m, s, dh = make_manager(profile=case['profile'], responder=lambda req, mid: reply_xml(case, mid),
-                                ignore_errors=case['pats'] or None, raise_mode=case['mode'])
+        srv = None
+        if case.get('via') == 'connect':
+            from impl import fakeserver as FS
+            from ncclient import manager
+            from ncclient.operations import RaiseMode
+            srv = FS.UnixServer(handler=lambda srv, req: [('send', reply_xml(case, FS.msg_id_of(req)))])
+            ep = {}
+            if case.get('mode_key') != 'absent':
+                ep['raise_mode'] = {0: RaiseMode.NONE, 1: RaiseMode.ERRORS, 2: RaiseMode.ALL}[case['mode']]
+            if case['pats']:
+                ep['ignore_errors'] = list(case['pats'])
+            try:
+                m = manager.connect_uds(path=srv.path, device_params={'name': case['profile']}, errors_params=ep, timeout=5)
+            except Exception as e:
+                srv.cleanup()
+                return {'raised': 'connect:' + type(e).__name__}
+            m.timeout = 5
+        else:
+            m, s, dh = make_manager(profile=case['profile'], responder=lambda req, mid: reply_xml(case, mid),
+                                    ignore_errors=case['pats'] or None, raise_mode=case['mode'])
+        try:
+            return self._call(m)
+        finally:
+            if srv is not None:
+                try:
+                    m._session.close()
+                except Exception:
+                    pass
+                srv.cleanup()
+
+    def _call(self, m):
+        from ncclient.operations import RPCError
 
         def err_row(e):
             return [getattr(e, ATTR[f]) for f in FIELDS]
